@@ -106,10 +106,75 @@ fn spec(cfg: Config, mode: Mode, depth: usize, devs: usize) -> SeqSpec {
     SeqSpec { cfg, prefix, max_depth: depth, max_devs: devs, alphabet, judge: judge(), goal }
 }
 
+
+/// Unmerged companion of the BFS: one long session per configuration. The counters are walked through carry
+/// boundaries (2^8, 2^16, 2^31, 2^32, 2^48, 2^63) and up to the reserved value with the nonce setters, three
+/// messages are exchanged at each point, failing calls of every kind are interposed, and 300 messages are
+/// counted one by one from zero. Every step is compared with the two-counter model (getters included).
+fn linear_sweep(ctx: &Ctx, cfg: &Config, label: &str) {
+    let proto = cfg.proto();
+    let oneway = proto.pattern.is_oneway();
+    let mut ops = sess::handshake_ops(&proto, &[0, 0, 0, 0]);
+    ops.extend(sess::convert_ops(Mode::TT));
+    let dirs: Vec<Side> = if oneway { vec![Side::I] } else { vec![Side::I, Side::R] };
+    let fails = |w: Side, ops: &mut Vec<Op>| {
+        let r = w.peer();
+        ops.push(Op::TWrite { side: w, plen: 2, cap: Cap::NeedPlus(-1) });
+        ops.push(Op::TWrite { side: w, plen: 65520, cap: Cap::Exact(70000) });
+        ops.push(Op::TRead { side: r, msg: Msg::Garbage(24, 3), cap: Cap::Roomy });
+        ops.push(Op::TRead { side: r, msg: Msg::Garbage(5, 3), cap: Cap::Roomy });
+        ops.push(Op::TRead { side: r, msg: Msg::Garbage(65536, 3), cap: Cap::Roomy });
+    };
+    for &w in &dirs {
+        let r = w.peer();
+        // count from zero
+        for k in 0..300usize {
+            ops.push(Op::TWrite { side: w, plen: k % 5, cap: Cap::Roomy });
+            if k % 37 == 5 {
+                fails(w, &mut ops);
+                ops.push(Op::TRead { side: r, msg: Msg::Last(w), cap: Cap::NeedPlus(-1) });
+            }
+            ops.push(Op::TRead { side: r, msg: Msg::Last(w), cap: if k % 2 == 0 { Cap::Roomy } else { Cap::NeedPlus(0) } });
+        }
+        // carry boundaries and the approach to the reserved value
+        for v in [(1u64 << 8) - 2, (1 << 16) - 2, (1 << 31) - 2, (1 << 32) - 2, (1 << 48) - 2, (1 << 63) - 2, u64::MAX - 4] {
+            ops.push(Op::SetSendNonce { side: w, n: v });
+            ops.push(Op::SetRecvNonce { side: r, n: v });
+            for k in 0..4 {
+                ops.push(Op::TWrite { side: w, plen: 3, cap: Cap::Roomy });
+                if k == 1 {
+                    fails(w, &mut ops);
+                }
+                ops.push(Op::TRead { side: r, msg: Msg::Last(w), cap: Cap::Roomy });
+            }
+        }
+        // after u64::MAX - 4 + 4 messages both counters stand at 2^64-1... the last message went out under 2^64-2;
+        // everything from here on must be refused as exhausted and move nothing
+        for _ in 0..3 {
+            ops.push(Op::TWrite { side: w, plen: 3, cap: Cap::Roomy });
+            ops.push(Op::TRead { side: r, msg: Msg::Last(w), cap: Cap::Roomy });
+            fails(w, &mut ops);
+        }
+    }
+    let e = sess::run(cfg, &ops);
+    ctx.add(&ctx.evaluations, e.steps.len() as u64);
+    ctx.add(&ctx.transitions, e.steps.len() as u64);
+    ctx.add(&ctx.traces, 1);
+    ctx.count("linear_sweep_calls", e.steps.len() as u64);
+    let exhausted = e.steps.iter().filter(|s| matches!(s.real, Real::Err(EClass::Exhausted))).count();
+    if exhausted == 0 {
+        ctx.vacuous(format!("{label}: the long session never met the exhaustion error"));
+    }
+    if let Some((sig, d)) = (judge())(&e).into_iter().next() {
+        let step = e.mism.iter().map(|m| m.step).min().unwrap_or(ops.len() - 1).min(ops.len() - 1);
+        ctx.violation(format!("{sig} (long session)"), format!("{label}: {d}"), sess::case_json(cfg, &ops[..=step]));
+    }
+}
+
 pub fn run(tier: Tier) -> i32 {
     let ctx = Ctx::new("C09", tier, "model_checking");
     let (depth, devs) = if ctx.quick() { (4, 2) } else { (6, 3) };
-    ctx.set_rule(format!("explicit-state BFS over sequences of transport writes/reads (valid, undersized, oversize, garbage), set_receiving_nonce / verif_set_sending_nonce in {{0, 2^64-3..2^64-1}}, rekeys, stateless calls with nonces {{0,1,2^64-2,2^64-1}}; depth {depth}, at most {devs} failing calls per path; every transition on real snow objects vs two u64 counters per endpoint, plus the RecordingCipher log"));
+    ctx.set_rule(format!("explicit-state BFS over sequences of transport writes/reads (valid, undersized, oversize, garbage), set_receiving_nonce / verif_set_sending_nonce in {{0, 2^64-3..2^64-1}}, rekeys, stateless calls with nonces {{0,1,2^64-2,2^64-1}}; depth {depth}, at most {devs} failing calls per path; every transition on real snow objects vs two u64 counters per endpoint, plus the RecordingCipher log; plus, unmerged, one long session per configuration (300 messages counted from zero, the counters walked through 2^8/2^16/2^31/2^32/2^48/2^63 and up to 2^64-1, failing calls interposed)"));
     let mut specs = vec![];
     for (c, b) in cipher_backends() {
         for pat in ["NN", "N"] {
@@ -131,6 +196,11 @@ pub fn run(tier: Tier) -> i32 {
         absorb(&ctx, s, &r, label);
         if !r.outcomes.iter().any(|o| (o.starts_with("TRead") || o.starts_with("SRead")) && o.ends_with("-> Ok")) {
             ctx.vacuous(format!("{label}: no read was ever accepted"));
+        }
+    });
+    specs.iter().filter(|(s, _)| s.cfg.name.contains("_NN_") || s.cfg.name.contains("_N_")).for_each(|(s, label)| {
+        if label.ends_with("TT") {
+            linear_sweep(&ctx, &s.cfg, label);
         }
     });
     let (s0, _) = &specs[0];
